@@ -4,8 +4,8 @@ import (
 	"context"
 	"fmt"
 	"os"
-	"sort"
 	"runtime"
+	"sort"
 	"strings"
 	"sync"
 	"sync/atomic"
@@ -89,6 +89,9 @@ var streamMu sync.Mutex // Stream-level scenarios run one at a time (goroutine-l
 func runAttempt(s *gobinlog.Streamer, m *simMaster, h *hist, mapper *tblMapper, o attemptOpts) attemptResult {
 	streamMu.Lock()
 	defer streamMu.Unlock()
+	if journalPath != "" && h != nil {
+		journal("stream-level scenario over " + h.line(posStr(firstFile, 4)))
+	}
 	var res attemptResult
 	res.snapshotsEqual = true
 	if o.slowLog > 0 {
